@@ -83,6 +83,11 @@ def check(ctx):
     # a step that skips an upstream resource without reading it starves the side effects of earlier steps (duplicate's
     # store, join's index): the lazy chain then differs from step-by-step evaluation
     stream.r6_consumption(ctx)
+    # the iterator of resources is advanced one resource at a time: a step that collects upstream *resources* into a container
+    # (list(package), [r, *islice(it, n)], ...) pulls later resources - and everything upstream steps do between resources -
+    # before the rows of the current one were read; step-by-step evaluation on materialised data does not show that
+    from rules import rows
+    rows.r13_no_materialise(ctx, rule='R13r', min_level=2)
     helper_processors(ctx)
     run.trusted += ['LF1 datapackage.Resource owns a private descriptor; Package.commit() snapshots',
                     'inspect.isfunction / inspect.signature / collections.abc.Iterable behave as documented']
